@@ -164,7 +164,12 @@ func (m *Model) applyLink(op Op) []string {
 		panic("no link collection for " + op.Store + "." + op.Field)
 	}
 	self, other := m.otherStore(coll, flipped)
-	if _, ok := m.Ents[self][op.ID]; !ok {
+	if !m.LinkEndExists(self, op.ID) {
+		if _, isChild := m.childCfg(self); isChild {
+			if _, parentExists := m.Ents[m.BaseStore(self)][op.ID]; parentExists {
+				return []string{Unspecified} // link operation on a child store for an entity without child data
+			}
+		}
 		return []string{ErrSome}
 	}
 	ab := func(key string) (string, string) {
@@ -173,7 +178,7 @@ func (m *Model) applyLink(op Op) []string {
 		}
 		return op.ID, key
 	}
-	exists := func(key string) bool { _, ok := m.Ents[other][key]; return ok }
+	exists := func(key string) bool { return m.LinkEndExists(other, key) }
 	switch op.Kind {
 	case "addlinks", "addlink":
 		for _, k := range op.Keys {
@@ -453,6 +458,22 @@ func (w *World) CheckEntities(tx *bbolt.Tx, m *Model) error {
 		}
 		if fmt.Sprint(iter) != fmt.Sprint(want) && !(len(iter) == 0 && len(want) == 0) {
 			return fmt.Errorf("store %s: IterateIds = %q, model has %q", name, iter, want)
+		}
+		// the sorting scan strategy must see the same population
+		byName := append([]string(nil), want...)
+		ents := m.Ents[name]
+		sort.SliceStable(byName, func(i, j int) bool {
+			if ents[byName[i]].Name != ents[byName[j]].Name {
+				return ents[byName[i]].Name < ents[byName[j]].Name
+			}
+			return byName[i] < byName[j]
+		})
+		sorted, scount, err := st.QueryIds(tx, "true sort by name")
+		if err != nil {
+			return fmt.Errorf("store %s: QueryIds(true sort by name): %v", name, err)
+		}
+		if fmt.Sprint(sorted) != fmt.Sprint(byName) && !(len(sorted) == 0 && len(byName) == 0) || int(scount) != len(byName) {
+			return fmt.Errorf("store %s: QueryIds(true sort by name) = %q (count %d), model has %q", name, sorted, scount, byName)
 		}
 		for id, me := range m.Ents[name] {
 			e, found, err := st.FindById(tx, id)
